@@ -128,8 +128,10 @@ CLAIMED = {
                   "container membership of an entity object is by identity; that MultiTag positions / extents role links are the "
                   "same object as the given array.",
              note="Assumed: HDF5 hard links alias (one object, many paths); H5Group.create_link primitive; lazily created link-list "
-                  "groups are outside the contract domain. SourceLinkContainer.append (tree search with a lambda filter), dimension "
-                  "links and linked ticks/labels are NOT under contract.", ref="7 C05"),
+                  "groups are outside the contract domain. Dimension links: link_data_array / link_data_frame are verified in prefix "
+                  "mode (invalid index refused before the old link or the ticks are touched; link and ticks replace each other) and "
+                  "DimensionLink.values designates exactly the configured vector. SourceLinkContainer.append (tree search with a "
+                  "lambda filter), Feature.data and linked unit/label forwarding are NOT under contract.", ref="7 C05"),
  "C12": dict(text="Deductive proof, per public creating / mutating function under contract, that every path ending in a refusal leaves "
                   "the abstract store exactly as it was (an automatic obligation `atomic:<component>` for every raising path of "
                   "every unit: no write before the raise), and that the refusal is raised exactly under its stated condition: "
